@@ -27,4 +27,4 @@ Deliver, inside {wt}:
  1. the source change itself (leave it applied, uncommitted, in the worktree);
  2. a file {wt}/seed_demo.py: a small standalone program that exits 0 on the unchanged library and exits non-zero (printing what went wrong) with your change applied. It must use PYTHONPATH to import the library from the current directory (do not hardcode /repo);
  3. a file {wt}/seed_meta.json with keys: "property" ("{pid}"), "summary" (one sentence: what you changed), "needs" (what specific input/sequence is needed for the bug to manifest), "files" (list of changed files).
-Verify yourself before finishing: run the test suite with your change (must pass), run seed_demo.py with your change (must fail), then `git stash` your source change, run seed_demo.py again (must pass), and `git stash pop` to restore it. Report briefly what you changed. Do not create any other files outside {wt}.""")
+Verify yourself before finishing: run the test suite with your change (must pass), run seed_demo.py with your change (must fail), then save your source change with `git diff -- dlms_cosem > {wt}/my.patch`, undo it with `git apply -R {wt}/my.patch`, run seed_demo.py again (must pass), and restore it with `git apply {wt}/my.patch` (do not use `git stash`: the stash is shared with other worktrees of the same repository). Report briefly what you changed. Do not create any other files outside {wt}.""")
